@@ -8,7 +8,7 @@ use zeromq::SocketEvent;
 use zvcore::evidence::{Check, Tier};
 use zvcore::refcodec as rc;
 
-const BEHAVIOURS: [&str; 3] = ["goes-silent", "closes", "switches-to-garbage"];
+const BEHAVIOURS: [&str; 4] = ["goes-silent", "closes", "switches-to-garbage", "resets"];
 
 #[derive(Clone, Debug)]
 struct Case {
@@ -213,6 +213,26 @@ async fn run_case(c: &Case) -> Vec<(String, String)> {
     let hs = rc::handshake(c.ty.peer_type(), None);
     let mut bads: Vec<RawStream> = Vec::new();
     for _ in 0..c.bad_clients {
+        if c.behaviour == 3 {
+            // abortive close (RST) by a synchronous client: connect, write and reset happen without this task
+            // yielding, so on a current-thread runtime the listener has not looked at the connection yet
+            if let zeromq::Endpoint::Tcp(host, port) = &ep {
+                use std::io::Write;
+                use std::os::fd::AsRawFd;
+                match std::net::TcpStream::connect((host.to_string().as_str(), *port)) {
+                    Ok(mut s) => {
+                        let _ = s.write_all(&hs[..c.offset]);
+                        let lin = libc::linger { l_onoff: 1, l_linger: 0 };
+                        unsafe {
+                            libc::setsockopt(s.as_raw_fd(), libc::SOL_SOCKET, libc::SO_LINGER, &lin as *const _ as *const libc::c_void, std::mem::size_of::<libc::linger>() as libc::socklen_t);
+                        }
+                        drop(s);
+                    }
+                    Err(e) => viol.push((format!("bound-endpoint-refuses/{}", BEHAVIOURS[c.behaviour]), format!("{}: a later one of these clients could not even connect to the still-bound endpoint: {}", what, e))),
+                }
+            }
+            continue;
+        }
         match RawStream::connect(&ep).await {
             Ok(mut s) => {
                 let _ = s.write_all(&hs[..c.offset]).await;
@@ -225,7 +245,7 @@ async fn run_case(c: &Case) -> Vec<(String, String)> {
                     }
                 }
             }
-            Err(e) => viol.push(("machinery/bad-connect".into(), format!("{}: {}", what, e))),
+            Err(e) => viol.push((format!("bound-endpoint-refuses/{}", BEHAVIOURS[c.behaviour]), format!("{}: a later one of these clients could not even connect to the still-bound endpoint: {}", what, e))),
         }
     }
     // a well-behaved client connecting while the bad ones are around
@@ -337,6 +357,18 @@ fn all_cases(tier: Tier) -> Vec<Case> {
             }
         }
     }
+    // abortive closes (RST), TCP only: at the structurally interesting offsets, 1 and 3 clients
+    for ty in ALL_TYPES {
+        for tr in [Tr::Tcp4, Tr::Tcp6] {
+            let n = rc::handshake(ty.peer_type(), None).len();
+            let offsets: Vec<usize> = if tier == Tier::Thorough { (0..n).collect() } else { vec![0, 1, 10, 63, 64, 65, 70, n - 1] };
+            for offset in offsets {
+                for k in [1usize, 3] {
+                    v.push(Case { ty, tr, offset, behaviour: 3, bad_clients: k, extra_goods: 0 });
+                }
+            }
+        }
+    }
     // scale family: 1 / 8 / 64 (thorough 256) silent clients stalled at 4 handshake stages, then 20 (thorough 100)
     // further well-behaved clients one after the other
     let stallers: &[usize] = if tier == Tier::Thorough { &[1, 8, 64, 256] } else { &[1, 8, 64] };
@@ -378,7 +410,10 @@ pub fn shard(tier: Tier, i: usize, n: usize) -> i32 {
             continue;
         }
         let c2 = c.clone();
-        let Some(viol) = e4::block_on_deadline(2, e4::CASE_DEADLINE, move || async move { run_case(&c2).await }) else {
+        // abortive closes race with the accept task: a current-thread runtime makes "reset before the listener has
+        // looked at the connection" certain, a multi-thread one covers the other order
+        let workers = if c.behaviour == 3 && c.bad_clients == 1 { 0 } else { 2 };
+        let Some(viol) = e4::block_on_deadline(workers, e4::CASE_DEADLINE, move || async move { run_case(&c2).await }) else {
             // a runtime thread is blocked for ever: report it, give up the rest of this shard and leave (exiting is
             // what gets rid of the stuck thread)
             let what = format!("bound {} over {}, {} raw client(s) that send {} handshake bytes and then {}", c.ty.name(), c.tr.name(), c.bad_clients, c.offset, BEHAVIOURS[c.behaviour]);
@@ -437,6 +472,8 @@ pub fn run(tier: Tier, replay: Option<String>) -> i32 {
             Vec::new()
         }
     };
+    let mut results = results;
+    results.sort_by_key(|r| r["case"].as_u64().unwrap_or(u64::MAX));
     let mut done = 0u64;
     let mut classes = std::collections::HashSet::new();
     let mut skipped = 0u64;
@@ -471,7 +508,7 @@ pub fn run(tier: Tier, replay: Option<String>) -> i32 {
     ck.cov("evaluations", done);
     ck.cov("distinct_nontrivial", cases.iter().filter(|c| c.offset > 0 || c.behaviour != 0).count() as u64);
     ck.cov("exhaustive", skipped == 0);
-    ck.cov("rule", format!("for each of the 9 bound socket types over {}: a raw client that sends the first k bytes of a valid greeting+READY for EVERY k in 0..N-1 and then {{goes silent, closes, switches to 96 bytes of garbage}}, one such client (three at every 16th offset{}), with a well-behaved raw client connecting before, while and after; plus a scale family (PULL/PUB/ROUTER/REP over TCP v4 and IPC: 1 / 8 / 64 (thorough 256) silent clients stalled at offsets 0, 10, 64, 70, then 20 (thorough 100) further well-behaved clients one after the other, each of which must complete its handshake; and 200 (thorough 600) clients that close or switch to garbage at offsets 10 / 70 followed by well-behaved ones - not exhaustive in the counts): {} cases, all distinct; non-trivial = the bad client sent at least one byte or misbehaved actively. Oracle (monotone conditions, {} s horizon): the client connecting meanwhile completes its handshake and a message exchange that proves its connection works in the direction(s) the type supports (for round-robin senders: one send per well-behaved client reaches every one of them, so a half-handshaken connection in the rotation is detected); the connection established before still works; the monitor reports AcceptFailed for every client that closes mid-handshake (garbage may merely stall a handshake, which is not a failure) and never more Accepted events than completed handshakes; a client connecting afterwards works too.", match tier { Tier::Quick => "TCP v4 (TCP v6 and IPC at 8 structurally interesting offsets)", Tier::Thorough => "TCP v4, TCP v6 and IPC" }, if tier == Tier::Thorough { " — thorough: at every offset" } else { "" }, cases.len(), e4::HORIZON.as_secs()));
+    ck.cov("rule", format!("for each of the 9 bound socket types over {}: a raw client that sends the first k bytes of a valid greeting+READY for EVERY k in 0..N-1 and then {{goes silent, closes, switches to 96 bytes of garbage}} (and, at the structurally interesting offsets over TCP, aborts with a reset from a synchronous client - on a current-thread runtime, where the reset is certain to precede the listener's look at the connection, and on a multi-thread one), one such client (three at every 16th offset{}), with a well-behaved raw client connecting before, while and after; plus a scale family (PULL/PUB/ROUTER/REP over TCP v4 and IPC: 1 / 8 / 64 (thorough 256) silent clients stalled at offsets 0, 10, 64, 70, then 20 (thorough 100) further well-behaved clients one after the other, each of which must complete its handshake; and 200 (thorough 600) clients that close or switch to garbage at offsets 10 / 70 followed by well-behaved ones - not exhaustive in the counts): {} cases, all distinct; non-trivial = the bad client sent at least one byte or misbehaved actively. Oracle (monotone conditions, {} s horizon): the client connecting meanwhile completes its handshake and a message exchange that proves its connection works in the direction(s) the type supports (for round-robin senders: one send per well-behaved client reaches every one of them, so a half-handshaken connection in the rotation is detected); the connection established before still works; the monitor reports AcceptFailed for every client that closes mid-handshake (garbage may merely stall a handshake, which is not a failure) and never more Accepted events than completed handshakes; a client connecting afterwards works too.", match tier { Tier::Quick => "TCP v4 (TCP v6 and IPC at 8 structurally interesting offsets)", Tier::Thorough => "TCP v4, TCP v6 and IPC" }, if tier == Tier::Thorough { " — thorough: at every offset" } else { "" }, cases.len(), e4::HORIZON.as_secs()));
     ck.sample(case_json(&cases[cases.len() / 2]));
     ck.sample(case_json(&cases[7]));
     ck.assume("OS schedules are not enumerated; 'never completes' is observed as 'not within the 5 s horizon' (correct code needs milliseconds)");
